@@ -4,6 +4,11 @@ use serde::ser::SerializeStruct;
 use serde::{Deserialize, Deserializer, Serialize, Serializer};
 use std::fmt;
 use std::str::FromStr;
+#[cfg(feature = "verif-hooks")]
+use crate::verif::{AtomicU64, AtomicUsize};
+#[cfg(feature = "verif-hooks")]
+use std::sync::atomic::Ordering;
+#[cfg(not(feature = "verif-hooks"))]
 use std::sync::atomic::{AtomicU64, AtomicUsize, Ordering};
 use std::time::{SystemTime, UNIX_EPOCH};
 
